@@ -17,6 +17,16 @@ CHECKS = {
             "trusts Python's NFC implementation and that one representative per lexer character class behaves like "
             "the class; longer strings are sampled, not enumerated",
             "DESIGN.md §3 C04"),
+    "C01": ("exploration",
+            "Hypothesis model documents x spellings + exhaustive token sequences; round-trip/idempotence oracle through API, MCP tools and CLI",
+            "For every generated input that the reader accepts, the canonical text from each canonicalising entry point "
+            "(emit(parse_with_warnings), octave_validate, octave_write + normalize mode, CLI normalize/validate/write) must "
+            "be accepted by strict parse() and canonicalise to identical bytes. Inputs: model documents in canonical and "
+            "lenient spellings (sampled) and every `K::<seq>` over <=3 (thorough <=4) lexemes of a 32-lexeme alphabet "
+            "(exhaustive).",
+            "the oracle is the property itself (a round trip), so nothing but the reader/emitter under test is trusted; "
+            "inputs the reader rejects are outside the domain",
+            "DESIGN.md §3 C01"),
     "C02": ("exploration",
             "model-based: Hypothesis-generated content model rendered to text; generator's content vs reader's AST",
             "Documents are generated as explicit content (never as text), rendered in a conservative canonical spelling "
